@@ -58,6 +58,9 @@ def scen_push_ts_input(cfg):
         snd = asyncsym.mk_node(V, rec, "snd", 20)
         rcv = asyncsym.mk_node(V, rec, "rcv", 10)
         c = asyncsym.mk_conn(V, rec, snd, rcv, blocking=cfg["blocking"])
+        if cfg.get("state") == "ready":  # the sender was started before the receiver: the connection is reset but not yet started
+            from rex.constants import Async
+            c._state = Async.READY
         # INV: queued receive times on the 1us grid, FIFO-monotone; _prev_recv_sc = last queued receive time
         ts = [V.grid(f"q{i}", lo=0) for i in range(nq)]
         for i in range(nq - 1):
@@ -430,6 +433,7 @@ def configs(tier):
         for blocking in (False, True):
             out.append(dict(scen="push_ts_input", nq=nq, blocking=blocking, eps=0))
     out.append(dict(scen="push_ts_input", nq=1, blocking=False, eps=1))
+    out += [dict(scen="push_ts_input", nq=0, blocking=b, eps=0, state="ready") for b in (False, True)]
     out += [dict(scen="push_zip", blocking=b) for b in (False, True)]
     for nq in ([1, 3] if not th else [1, 2, 3, 4]):
         for skip in (False, True):
